@@ -157,116 +157,203 @@ def writer_str(shape, interned):
         "        std::mem::forget(b);",
     ]
     nm = "w_str_%s_%s" % (shape or "empty", "int" if interned else "pl")
-    return H(nm, "\n".join(lines), "str_into_bytes/[%s]/%s" % (shape, "interned" if interned else "plain"), unwind=n + 3,
+    return H(nm, "\n".join(lines), "str_into_bytes/[%s]/%s" % (shape, "interned" if interned else "plain"), unwind=n + 3, stubs=ASCII_STUB,
              asserts={"wellformed": "", "length": "", "payload": "", "ascii-code": ""}, covers=["reach"],
              meta=dict(shape="string of UTF-8 width pattern [%s] (%d bytes)" % (shape, n),
                        symbolic=["every code point of each class (A: any ASCII, 2/3/4: any scalar value of that width)"],
                        bounds={"chars": len(shape)}, cost=n + 1))
 
 
-def reader_const(L, first):
-    """deserialize_const on a buffer of L bytes whose first byte is `first` (None: any byte that is not a container/code prefix)."""
-    lines = ["        let mut a: [u8; %d] = kani::any();" % max(L, 1)]
-    if L >= 1:
-        if first is None:
-            lines.append("        kani::assume(a[0] != b'(' && a[0] != b')' && a[0] != 0xA8 && a[0] != 0xA9 && a[0] != b'c' && a[0] != 0xE3);")
-        else:
-            lines.append("        a[0] = %d;" % first)
-    lines += [
-        "        let mut v: Vec<u8> = a[..%d].to_vec();" % L,
-        "        let mut des = Deserializer::new();",
-        "        kani::cover!(true, \"reach\");",
-        "        let r = des.deserialize_const(&mut v, __pv(11));",
-        "        kani::cover!(r.is_ok(), \"reach-ok\");" if L >= 1 else "",
-        "        kani::cover!(r.is_err(), \"reach-err\");",
-        "        assert!(v.len() <= %d, \"consumed: never reads past the buffer\");" % L,
-        "        std::mem::forget(r); std::mem::forget(v); std::mem::forget(des);",
-    ]
-    fn = "any" if first is None else "x%02x" % first
-    covers = ["reach", "reach-err"] + (["reach-ok"] if (L >= 1 and (first is None or first in (ord('N'), ord('T'), ord('F')) or L >= 2)) else [])
-    return H("r_const_%d_%s" % (L, fn), "\n".join(l for l in lines if l), "deserialize_const/len=%d/first=%s" % (L, fn), unwind=L + 3,
-             stubs=STUBS, asserts={"consumed": ""}, covers=["reach"],
-             meta=dict(shape="buffer of %d bytes, first byte %s" % (L, "any non-container code" if first is None else "0x%02x" % first),
-                       symbolic=["every byte"], bounds={"buffer_bytes": L}, cost=L * L + 1))
+ASCII_STUB = [("str::is_ascii", "__stub_is_ascii")]
+COMMON_PRELUDE = r"""
+    use crate::python_util::PythonVersion;
+    /// std's str::is_ascii reads the string in usize words (31 s of CBMC for a 2-byte string); same meaning, byte loop
+    pub fn __stub_is_ascii(s: &str) -> bool { let b = s.as_bytes(); let mut i = 0; while i < b.len() { if b[i] >= 0x80 { return false; } i += 1; } true }
+    pub fn __ref_str(b: &[u8]) -> Option<(usize, usize, bool)> {
+        if b.is_empty() { return None; }
+        let code = b[0] & 0x7f;
+        if code == b'z' || code == b'Z' {
+            if b.len() < 2 { return None; }
+            let n = b[1] as usize;
+            if b.len() < 2 + n { return None; }
+            return Some((2, n, true));
+        }
+        if code == b'u' || code == b't' || code == b'a' || code == b'A' || code == b's' {
+            if b.len() < 5 { return None; }
+            let n = u32::from_le_bytes([b[1], b[2], b[3], b[4]]) as usize;
+            if b.len() < 5 + n { return None; }
+            return Some((5, n, code == b'a' || code == b'A'));
+        }
+        None
+    }
+"""
 
 
-def rw_scalar(kind):
-    if kind == "Int":
-        mk, cmp_ = "let x: i32 = kani::any(); let v = ValueObj::Int(x);", "matches!(r, Ok(ValueObj::Int(y)) if y == x)"
-    elif kind == "NatSmall":
-        mk, cmp_ = "let x: u64 = kani::any(); kani::assume(x < 0x8000_0000); let v = ValueObj::Nat(x);", "matches!(r, Ok(ValueObj::Int(y)) if y as i64 == x as i64) || matches!(r, Ok(ValueObj::Nat(y)) if y == x)"
-    elif kind == "NatBig":
-        mk, cmp_ = "let x: u64 = kani::any(); kani::assume(x >= 0x8000_0000); let v = ValueObj::Nat(x);", "matches!(r, Ok(ValueObj::Nat(y)) if y == x)"
-    elif kind == "Float":
-        mk, cmp_ = "let x: u64 = kani::any(); let v = ValueObj::from(f64::from_bits(x));", "matches!(&r, Ok(ValueObj::Float(y)) if y.to_bits() == x)"
-    elif kind == "Bool":
-        mk, cmp_ = "let x: bool = kani::any(); let v = ValueObj::Bool(x);", "matches!(r, Ok(ValueObj::Bool(y)) if y == x)"
-    else:
-        mk, cmp_ = "let v = ValueObj::None;", "matches!(r, Ok(ValueObj::None))"
-    body = """        %s
+def writer_strs(n, L):
+    """strs_into_bytes of n names of L ASCII bytes each: a tuple header followed by n string objects"""
+    lines = ["        let mut names: Vec<Str> = Vec::new();"]
+    for i in range(n):
+        lines.append("        let a%d: [u8; %d] = kani::any(); { let mut j = 0; while j < %d { kani::assume(a%d[j] < 0x80); j += 1; } }" % (i, L, L, i))
+        lines.append("        names.push(Str::rc(std::str::from_utf8(&a%d).unwrap()));" % i)
+    lines += ["        kani::cover!(true, \"reach\");",
+              "        let b = strs_into_bytes(names);",
+              "        assert!(b.len() >= 2 && b[0] == b')' && b[1] as usize == %d, \"header: TYPE_SMALL_TUPLE with the element count\");" % n,
+              "        let mut off = 2usize; let mut ok = true;"]
+    for i in range(n):
+        lines.append("        match __ref_str(&b[off..]) { Some((o, l, _)) => { if l != %d { ok = false; } let mut j = 0; while j < %d { if b[off + o + j] != a%d[j] { ok = false; } j += 1; } off += o + l; } None => { ok = false; } }" % (L, L, i))
+    lines += ["        assert!(ok, \"elements: every element is a well-formed string object with the name's bytes\");",
+              "        assert!(off == b.len(), \"length: nothing trails the last element\");",
+              "        std::mem::forget(b);"]
+    return H("w_strs_%d_%d" % (n, L), "\n".join(lines), "strs_into_bytes/n=%d,len=%d" % (n, L), unwind=max(n, L) + 4, stubs=ASCII_STUB,
+             asserts={"header": "", "elements": "", "length": ""}, covers=["reach"],
+             meta=dict(shape="%d names of %d ASCII bytes" % (n, L), symbolic=["every name byte"], bounds={"names": n}, cost=n * L + 2))
+
+
+def writer_raw(L):
+    lines = ["        let a: [u8; %d] = kani::any();" % max(L, 1),
+             "        kani::cover!(true, \"reach\");",
+             "        let b = raw_string_into_bytes(a[..%d].to_vec());" % L,
+             "        assert!(b.len() == 5 + %d && b[0] == b's' && u32::from_le_bytes([b[1], b[2], b[3], b[4]]) as usize == %d, \"header: TYPE_STRING with a 4-byte little-endian length\");" % (L, L),
+             "        let mut ok = true; let mut j = 0; while j < %d { if b[5 + j] != a[j] { ok = false; } j += 1; }" % L,
+             "        assert!(ok, \"payload: the bytes follow unchanged\");",
+             "        std::mem::forget(b);"]
+    return H("w_raw_%d" % L, "\n".join(lines), "raw_string_into_bytes/len=%d" % L, unwind=L + 4, asserts={"header": "", "payload": ""}, covers=["reach"],
+             meta=dict(shape="%d arbitrary bytes (co_code / lnotab)" % L, symbolic=["every byte"], bounds={"bytes": L}, cost=L + 1))
+
+
+def common_misc(hist_magics):
+    hs = []
+    hs.append(H("prefix_from", """        let b: u8 = kani::any();
         kani::cover!(true, "reach");
-        let mut b = v.into_bytes(__pv(11));
-        let mut des = Deserializer::new();
-        let r = des.deserialize_const(&mut b, __pv(11));
-        assert!(%s, "roundtrip: the reader returns the value the writer was given");
-        assert!(b.is_empty(), "consumed: the reader consumes exactly what the writer wrote");
-        std::mem::forget(r); std::mem::forget(b); std::mem::forget(des);""" % (mk, cmp_)
-    return H("rw_" + kind.lower(), body, "write-read/" + kind, unwind=12, stubs=STUBS, asserts={"roundtrip": "", "consumed": ""}, covers=["reach"],
-             meta=dict(shape="ValueObj::" + kind, symbolic=["the payload (whole machine domain of the stated range)"], bounds={}, cost=5))
+        let p = DataTypePrefix::from(b);
+        assert!(p == DataTypePrefix::Illegal || p as u8 == b || p as u8 == (b | 0x80) || (p as u8 | 0x80) == b, "code: a recognised prefix is the byte itself, with or without FLAG_REF");""",
+                "DataTypePrefix::from/all-bytes", asserts={"code": ""}, covers=["reach"],
+                meta=dict(shape="every byte", symbolic=["b: u8"], bounds={})))
+    hs.append(H("magic_total", """        let m: u32 = kani::any();
+        kani::cover!(true, "reach");
+        let b = get_magic_num_bytes(m & 0xffff);
+        let back = get_magic_num_from_bytes(&b);
+        assert!(back == (m & 0xffff), "rt: the 16-bit magic word survives the 4-byte header");
+        let v = get_ver_from_magic_num(back);
+        assert!(v.major == 3, "major: a recognised magic word is a Python 3 version");""",
+                "get_ver_from_magic_num/any-word", asserts={"rt": "", "major": ""}, covers=["reach"],
+                meta=dict(shape="every 16-bit magic word as read from a .pyc header", symbolic=["m: u32"], bounds={})))
+    return hs
+
+
+def reader_leaf(L):
+    """the reader's primitives on a buffer of L symbolic bytes: no panic, consume exactly what they return"""
+    hs = []
+    body = """        let a: [u8; %d] = kani::any();
+        let mut v: Vec<u8> = a[..%d].to_vec();
+        kani::cover!(true, "reach");
+        let x = Deserializer::deserialize_u32(&mut v);
+        assert!(%d >= 4, "total: fewer than 4 bytes must be reported as a broken file, not read");
+        assert!(v.len() + 4 == %d && x == u32::from_le_bytes([a[0], a[1], a[2], a[3]]), "value: little-endian u32, 4 bytes consumed");
+        std::mem::forget(v);""" % (max(L, 4), L, L, L)
+    hs.append(H("r_u32_%d" % L, body, "deserialize_u32/len=%d" % L, unwind=L + 6, asserts={"value": ""} if L >= 4 else {},
+                covers=["reach"], meta=dict(shape="buffer of %d bytes" % L, symbolic=["every byte"], bounds={"buffer_bytes": L}, cost=L + 1)))
+    body = """        let a: [u8; %d] = kani::any();
+        let mut v: Vec<u8> = a[..%d].to_vec();
+        let des = Deserializer::new();
+        kani::cover!(true, "reach");
+        let r = des.deserialize_bytes(&mut v);
+        match &r {
+            Ok(bs) => { assert!(a[0] & 0x7f == b's' && bs.len() + 5 + v.len() == %d, "ok: a TYPE_STRING object, payload and header consumed exactly"); }
+            Err(_) => {}
+        }
+        std::mem::forget(r); std::mem::forget(v); std::mem::forget(des);""" % (max(L, 1), L, L)
+    hs.append(H("r_bytes_%d" % L, body, "deserialize_bytes/len=%d" % L, unwind=L + 6, asserts={"ok": ""} if L >= 5 else {},
+                covers=["reach"], meta=dict(shape="buffer of %d bytes" % L, symbolic=["every byte"], bounds={"buffer_bytes": L}, cost=L + 2)))
+    return hs
+
+
+def source_links(rep, dtxt, stxt):
+    """source-level cross-check (no solver): every type code the writer functions can emit has an arm in the reader's
+    deserialize_const, so that the compiler can read back what it writes"""
+    enum = dict(re.findall(r"^\s*(\w+) = (b'[^']+'(?: \+ 0x80)?),", stxt, re.M))
+    body = extract_fn(dtxt, "deserialize_const") or ""
+    arms = set(re.findall(r"DataTypePrefix::(\w+)", body.split("other =>")[0]))
+    writer_codes = {"Int32": "ValueObj::Int / small Nat", "BinFloat": "ValueObj::Float", "ShortAscii": "str_into_bytes (ASCII, not interned)",
+                    "ShortAsciiInterned": "str_into_bytes (ASCII, interned)", "Unicode": "str_into_bytes (non-ASCII or long)",
+                    "True": "Bool", "False": "Bool", "None": "None", "SmallTuple": "tuples up to 255 elements", "Tuple": "longer tuples", "Code": "nested code objects"}
+    used = set(re.findall(r"DataTypePrefix::(\w+)", (extract_fn(stxt, "str_into_bytes") or "") + (extract_fn(stxt, "strs_into_bytes") or "")))
+    for name in sorted(set(writer_codes) | (used - {"Str"})):
+        ok = name in arms
+        rep.add(Obligation(key="reader-accepts/%s" % name, engine="source scan (no solver)", functions=["Deserializer::deserialize_const", "str_into_bytes"],
+                           verdict=HELD if ok else VIOLATED, nontrivial=False,
+                           reason=("deserialize_const has an arm for DataTypePrefix::%s (%s)" % (name, writer_codes.get(name, "emitted by str_into_bytes/strs_into_bytes")))
+                           if ok else ("the writer emits DataTypePrefix::%s (%s) but deserialize_const has no arm for it: the compiler cannot read back its own file" % (name, writer_codes.get(name, "str_into_bytes")))))
 
 
 def run(tier, seed, only=None):
     rep = Report("C15", tier, seed, "other",
-                 "Bounded model checking (Kani/CBMC) of the marshal writer (ValueObj::into_bytes scalar/string/tuple arms, "
-                 "str_into_bytes, dump_locals) against a reference model of CPython's unmarshaller written in the harness, of the "
-                 "compiler's own reader (Deserializer::deserialize_const & co.) for totality on every buffer up to a stated length, "
-                 "and of writer-reader round trips; scalars over their whole machine domain, strings per UTF-8 width pattern.",
-                 partial=bool(only))
+                 "Bounded model checking (Kani/CBMC) of the marshal writer (ValueObj::into_bytes scalar arms, str_into_bytes, strs_into_bytes, "
+                 "raw_string_into_bytes) against a reference model of CPython's unmarshaller written in the harness — scalars over their whole machine "
+                 "domain, strings per UTF-8 width pattern —, of the magic-number header, and of the reader's primitives (deserialize_u32, "
+                 "deserialize_bytes) for totality on every buffer up to a stated length; plus a source-level link that every type code the writer "
+                 "emits has an arm in the reader.  Deserializer::deserialize_const and CodeObj::from_bytes themselves are out of CBMC's reach "
+                 "(Result<ValueObj, _>: symex > 400 s for a 5-byte buffer) and are not decided.", partial=bool(only))
     s = Scratch("c15")
     try:
-        kr = KaniRun(s, "erg_compiler", "crates/erg_compiler", tier, workers=8, mem_gb=10, cap=400 if tier == "quick" else 1800)
+        kc = KaniRun(s, "erg_common", "crates/erg_common", tier, workers=8, mem_gb=8, cap=300 if tier == "quick" else 1500)
+        kk = KaniRun(s, "erg_compiler", "crates/erg_compiler", tier, workers=4, mem_gb=12, cap=400 if tier == "quick" else 1800)
         vtxt = s.read("crates/erg_compiler/ty/value.rs")
         dtxt = s.read("crates/erg_compiler/ty/deserialize.rs")
-        ctxt = s.read("crates/erg_compiler/ty/codeobj.rs")
         stxt = s.read("crates/erg_common/serialize.rs")
         rep.add_function("ValueObj::into_bytes", "crates/erg_compiler/ty/value.rs", extract_fn(vtxt, "into_bytes"))
-        for fn in ("deserialize_const", "deserialize_bytes", "deserialize_str_vec", "deserialize_locals", "consume"):
+        for fn in ("deserialize_const", "deserialize_bytes", "deserialize_u32", "consume"):
             rep.add_function("Deserializer::" + fn, "crates/erg_compiler/ty/deserialize.rs", extract_fn(dtxt, fn))
-        for fn in ("tuple_into_bytes", "consts_into_bytes", "from_bytes", "from_pyc", "dump_locals"):
-            rep.add_function(fn, "crates/erg_compiler/ty/codeobj.rs", extract_fn(ctxt, fn))
-        for fn in ("str_into_bytes", "strs_into_bytes", "raw_string_into_bytes"):
+        for fn in ("str_into_bytes", "strs_into_bytes", "raw_string_into_bytes", "get_ver_from_magic_num", "get_magic_num_bytes"):
             rep.add_function(fn, "crates/erg_common/serialize.rs", extract_fn(stxt, fn))
-        hs = writer_scalars()
+        source_links(rep, dtxt, stxt)
         if tier == "quick":
             shapes = ["", "A", "2", "4", "AA", "A3", "AAA", "3A", "AA2A"]
-            rlens = [(0, None), (1, None), (2, None), (3, None), (5, None), (5, ord('i')), (9, ord('g')), (4, 0xFA), (6, ord('u')), (3, ord('i')), (8, ord('g'))]
+            strs = [(0, 0), (1, 1), (2, 1), (2, 2)]
+            raws = [0, 1, 3]
+            leafs = [0, 3, 4, 5, 7]
         else:
             shapes = [""] + ["".join(p) for k in (1, 2, 3) for p in itertools.product("A234", repeat=k)] + ["AAAA", "AA2A", "A4AA", "AAAAAAAA"]
-            rlens = [(l, None) for l in range(0, 10)] + [(l, ord('i')) for l in range(1, 6)] + [(l, ord('g')) for l in range(1, 10)] + \
-                    [(l, 0xFA) for l in range(1, 7)] + [(l, ord('u')) for l in range(1, 9)] + [(l, ord('s')) for l in range(1, 8)]
+            strs = [(0, 0), (1, 1), (2, 1), (2, 2), (3, 1), (3, 3)]
+            raws = [0, 1, 2, 3, 4, 8]
+            leafs = list(range(0, 10))
+        ch = []
         for sh_ in shapes:
-            hs.append(writer_str(sh_, False))
-        hs.append(writer_str("A", True))
-        hs.append(writer_str("2", True))
-        for L, first in rlens:
-            hs.append(reader_const(L, first))
-        for k in ("Int", "NatSmall", "NatBig", "Float", "Bool", "None"):
-            hs.append(rw_scalar(k))
-        for h in hs:
+            ch.append(writer_str(sh_, False))
+        for sh_ in ("A", "2", "AA"):
+            ch.append(writer_str(sh_, True))
+        for n, L in strs:
+            ch.append(writer_strs(n, L))
+        for L in raws:
+            ch.append(writer_raw(L))
+        ch += common_misc(None)
+        for h in ch:
             if not only or only in h.name:
-                kr.add("crates/erg_compiler/ty/deserialize.rs", h, PRELUDE)
-        kr.run()
-        for h in kr.all_harnesses():
-            for o in kr.obligations(h, functions=[h.role.split("/")[0]]):
-                rep.add(o)
-        confirm_violations(rep, s, [kr])
-        rep.trusted += ["Kani 0.68, CBMC 6.11, CaDiCaL", "the marshal reference in props/c15.py (__ref_int, __ref_str)"]
+                kc.add("crates/erg_common/serialize.rs", h, COMMON_PRELUDE)
+        kh = writer_scalars()
+        for L in leafs:
+            kh += reader_leaf(L)
+        for h in kh:
+            if not only or only in h.name:
+                kk.add("crates/erg_compiler/ty/deserialize.rs", h, PRELUDE)
+        import threading
+        t1 = threading.Thread(target=kc.run)
+        t1.start()
+        kk.run()
+        t1.join()
+        for kr in (kc, kk):
+            for h in kr.all_harnesses():
+                for o in kr.obligations(h, functions=[h.role.split("/")[0]]):
+                    rep.add(o)
+        confirm_violations(rep, s, [kc, kk])
+        rep.trusted += ["Kani 0.68, CBMC 6.11, CaDiCaL", "the marshal reference in props/c15.py (__ref_int, __ref_str; CPython marshal.c r_object for i l z Z u s)"]
         rep.assumptions += [
-            "interning in the reader (Deserializer::get_cached_str / get_cached_arr) is stubbed by constructors of the same value without sharing",
             "std::fmt::format stubbed (error message text is not the subject)",
-            "strings longer than the listed shapes, containers of more than the listed sizes and whole-program .pyc files are outside the claim",
+            "str::is_ascii (std, word-at-a-time) is stubbed by a byte loop of the same meaning in the string-writer harnesses",
+            "strings longer than the listed shapes, tuples, nested code objects and whole-program .pyc files are outside the claim",
+            "Deserializer::deserialize_const / CodeObj::from_bytes / from_pyc are not decided (out of CBMC's reach); only their primitives are",
         ]
-        rep.extra["kani_build_s"] = kr.build_s
+        rep.extra["kani_build_s"] = {"erg_common": kc.build_s, "erg_compiler": kk.build_s}
         return rep.finish()
     finally:
         s.cleanup()
